@@ -23,6 +23,7 @@ Instead of exploring histories, the reader's inheritance state is made symbolic:
   which runs the real reader on real bytes), so counterexamples are replayable."""
 import io
 import itertools
+import os
 import struct
 from collections import OrderedDict
 import z3
@@ -273,7 +274,7 @@ def run_task(task):
         if any(kinds.get(k) == 'same' and states[k] == 'def-nohd' for k in listed):
             ctx.note('step-same-after-nodata')
 
-    st = explore(fn, max_paths=400000, time_budget=1500)
+    st = explore(fn, max_paths=400000, time_budget=1500, keep_samples=int(os.environ.get('VF_KEEP_SAMPLES', 3)))
     st.pop('wall_s', None)
     return st
 
@@ -295,6 +296,10 @@ def _frame(ctx, L, snapshot, prev, prev_snapshot, prev_index_snapshot, replaced=
             ctx.fail('step-frame-previous-index')
     if conj:
         ctx.prove(z3.And(*conj), what='step-frame-index')
+
+
+def _t(x):
+    return x if z3.is_expr(x) else ex(x)
 
 
 def post_check(r, segment, prev, K, states, L, order, hd, idx, pre_N, nc, chunk, P, meta_len, lazy, prove, fail):
@@ -335,10 +340,10 @@ def post_check(r, segment, prev, K, states, L, order, hd, idx, pre_N, nc, chunk,
         else:
             if p in r.object_metadata or p in r._prev_segment_objects:
                 fail('step-object-invented', path=p)
-    conj.append(ex(segment.position) == ex(P))
-    conj.append(ex(segment.data_position) == ex(P) + 28 + meta_len)
-    conj.append(ex(segment.next_segment_pos) == ex(P) + 28 + meta_len + chunk * nc)
-    conj.append(z3.Implies(chunk > 0, ex(segment.num_chunks) == nc))
+    conj.append(ex(segment.position) == _t(P))
+    conj.append(ex(segment.data_position) == _t(P) + 28 + meta_len)
+    conj.append(ex(segment.next_segment_pos) == _t(P) + 28 + meta_len + _t(chunk) * nc)
+    conj.append(z3.Implies(_t(chunk) > 0, ex(segment.num_chunks) == nc))
     if segment.final_chunk_lengths_override is not None:
         fail('step-final-chunk-override-on-complete-segment')
     if lazy:
